@@ -773,6 +773,8 @@ impl LiveActor {
         if self.queued_hashes.contains_hash(&hash) {
             self.queued_hashes.insert(hash, namespace);
         } else if !only_if_missing || self.missing_hashes.contains(&hash) {
+            #[cfg(iroh_docs_verif)]
+            crate::verif::record_download(namespace, hash, node);
             let req = DownloadRequest::new(
                 HashAndFormat::raw(hash),
                 self.hash_providers.clone(),
@@ -901,6 +903,72 @@ pub mod verif {
         /// `on_sync_report` for a report with the given encoded heads
         pub async fn on_sync_report(&mut self, from: PublicKey, namespace: NamespaceId, heads: Vec<u8>) {
             self.actor.on_sync_report(from, SyncReport { namespace, heads }).await
+        }
+
+        /// `on_replica_event`
+        pub async fn on_replica_event(&mut self, event: crate::Event) -> Result<()> {
+            self.actor.on_replica_event(event).await
+        }
+
+        /// `on_download_ready`
+        pub async fn on_download_ready(&mut self, namespace: NamespaceId, hash: Hash, ok: bool) {
+            let res = if ok { Ok(()) } else { Err(anyhow::anyhow!("download failed")) };
+            self.actor.on_download_ready(namespace, hash, res).await
+        }
+
+        /// the actor messages `NeighborContentReady`, `NeighborUp`, `NeighborDown`, `Subscribe`, `Leave`
+        pub async fn neighbor_content_ready(&mut self, namespace: NamespaceId, node: PublicKey, hash: Hash) -> Result<bool> {
+            self.actor.on_actor_message(ToLiveActor::NeighborContentReady { namespace, node, hash }).await
+        }
+        /// `NeighborUp`
+        pub async fn neighbor_up(&mut self, namespace: NamespaceId, peer: PublicKey) -> Result<bool> {
+            self.actor.on_actor_message(ToLiveActor::NeighborUp { namespace, peer }).await
+        }
+        /// `NeighborDown`
+        pub async fn neighbor_down(&mut self, namespace: NamespaceId, peer: PublicKey) -> Result<bool> {
+            self.actor.on_actor_message(ToLiveActor::NeighborDown { namespace, peer }).await
+        }
+        /// `Subscribe`
+        pub async fn subscribe(&mut self, namespace: NamespaceId, sender: async_channel::Sender<Event>) -> Result<()> {
+            let (reply, rx) = sync::oneshot::channel();
+            self.actor.on_actor_message(ToLiveActor::Subscribe { namespace, sender, reply }).await?;
+            rx.await?
+        }
+        /// `Leave`
+        pub async fn leave(&mut self, namespace: NamespaceId, kill_subscribers: bool) -> Result<()> {
+            let (reply, rx) = sync::oneshot::channel();
+            self.actor.on_actor_message(ToLiveActor::Leave { namespace, kill_subscribers, reply }).await?;
+            rx.await?
+        }
+
+        /// the download book-keeping: `queued_hashes.by_hash`, `queued_hashes.by_namespace`,
+        /// `missing_hashes`, `hash_providers` (unordered)
+        #[allow(clippy::type_complexity)]
+        pub fn downloads_snapshot(
+            &self,
+        ) -> (
+            Vec<(Hash, Vec<NamespaceId>)>,
+            Vec<(NamespaceId, Vec<Hash>)>,
+            Vec<Hash>,
+            Vec<(Hash, Vec<PublicKey>)>,
+        ) {
+            let q = &self.actor.queued_hashes;
+            (
+                q.by_hash.iter().map(|(h, n)| (*h, n.iter().copied().collect())).collect(),
+                q.by_namespace.iter().map(|(n, h)| (*n, h.iter().copied().collect())).collect(),
+                self.actor.missing_hashes.iter().copied().collect(),
+                self.actor.hash_providers.0.lock().expect("poisoned").iter().map(|(h, n)| (*h, n.iter().copied().collect())).collect(),
+            )
+        }
+
+        /// the documents in the coordination state with their `may_emit_ready` flag, the joined gossip
+        /// topics and the size limit of a gossip message
+        pub fn docs_snapshot(&self, namespaces: &[NamespaceId]) -> (Vec<(NamespaceId, bool)>, Vec<NamespaceId>, usize) {
+            (
+                namespaces.iter().filter_map(|n| self.actor.state.verif_may_emit_ready(n).map(|m| (*n, m))).collect(),
+                self.actor.gossip.verif_active(),
+                self.actor.gossip.max_message_size(),
+            )
         }
 
         /// `(state, resync_requested)` of the slot for `peer`
